@@ -49,6 +49,8 @@ def _write(tu):
 
 def build(ctx):
     tus = etgen.generate(ctx.seed, ctx.tier)
+    vfcore.ensure_tree("asan")    # once, before the parallel compilations
+    vfcore.ensure_tree("plain")
 
     def one(tu):
         p = _write(tu)
